@@ -146,6 +146,8 @@ def run(chk):
     fa64e = chk.facts("asmjit/arm/a64assembler.cpp", funcs=r"a64::Assembler::_emit$")
     narrow.run_discard(chk, cw_fns + [cfg.find_fn(fa64e, "a64::Assembler::_emit")], cw_helpers)
     fbe = chk.facts("asmjit/core/assembler.cpp", funcs=r"asmjit::BaseAssembler::embed_label(_delta)?$")
+    from lib import a64common
+    a64common.rule_mem_base_label(chk, a64common.load(chk))
     narrow.run_label_delta(chk, [cfg.find_fn(fx, "x86::Assembler::_emit"), cfg.find_fn(fa64e, "a64::Assembler::_emit")] + [cfg.Fn(fo) for fo in fbe["functions"]])
 
     # ---------------------------------------------------------------- a label relocation takes offset and section from one label entry
